@@ -196,8 +196,7 @@ def distance_self_nan(n=1, bound=0.5, opts=None):
     # they are asserted, and the query asks for an arccosh argument below 1 (a NaN argument cannot arise from finite inputs here)
     s.add(*cx.assumptions)
     s.add(z3.fpLT(arg, z3.FPVal(1.0, SORT)))
-    from .core import zcheck
-    r = zcheck(s, to)
+    r, model_vals = portfolio(s, xs, to / 1000.0)
     stats['goal_solver_s'] = time.time() - t0
     rec = dict(goal="d(x,x) is never NaN (binary64, RNE, object-array evaluation order)", dimension=n, bound=bound, verdict=r,
                solver_s=round(time.time() - t0, 1), assumptions=[str(a)[:80] for a in cx.assumptions])
@@ -206,11 +205,7 @@ def distance_self_nan(n=1, bound=0.5, opts=None):
         stats['solver_unsat'] = 1
         stats['samples'].append(rec)
     elif r == 'sat':
-        m = s.model()
-        vals = []
-        for x in xs:
-            v = m.eval(x, model_completion=True)
-            vals.append(float(eval(str(z3.simplify(z3.fpToReal(v)).as_fraction()))) if False else _fp_to_float(v))
+        vals = model_vals
         d = replay_values(vals)
         if d != d:      # NaN
             stats['violations'].append(dict(goal="d(x,x) is never NaN", kind='fp', env={f"x{i}": v for i, v in enumerate(vals)}, values=vals,
@@ -223,6 +218,69 @@ def distance_self_nan(n=1, bound=0.5, opts=None):
     stats['functions'] = ["hyperbolic.py:Point.distance", "hyperbolic.py:hyperboloid_coords", "utils/core.py:normalize", "utils/core.py:apply_bilinear",
                           "utils/core.py:matrix_product", "projective.py:projective_coords"]
     return stats
+
+
+def portfolio(solver, xs, timeout_s):
+    """export the query as SMT-LIB2 and race the installed solver binaries under a hard wall-clock cap (bit-blasting back ends do not
+    honour soft timeouts reliably); returns (verdict, [float values of xs] or None)"""
+    import os, re, struct, subprocess, tempfile
+    txt = solver.to_smt2()
+    txt = txt.replace("(check-sat)", "(check-sat)\n" + "".join(f"(get-value ((fp.to_ieee_bv_placeholder {x})))\n" for x in []))
+    # values as IEEE bit patterns: define bit-vector aliases
+    decl = "".join(f"(declare-const bv_{x} (_ BitVec 64))\n(assert (= ((_ to_fp 11 53) bv_{x}) {x}))\n" for x in xs)
+    txt = txt.replace("(check-sat)", decl + "(check-sat)\n(get-value (" + " ".join(f"bv_{x}" for x in xs) + "))")
+    d = tempfile.mkdtemp(prefix="fpq_")
+    path = os.path.join(d, "q.smt2")
+    open(path, "w").write("(set-option :produce-models true)\n" + txt)
+    cmds = [["z3-new", path], ["z3", path], ["cvc5", "--produce-models", path]]
+    procs = []
+    for c in cmds:
+        try:
+            procs.append((c[0], subprocess.Popen(c, stdout=subprocess.PIPE, stderr=subprocess.STDOUT, text=True)))
+        except OSError:
+            pass
+    t0 = time.time()
+    verdict, vals = 'unknown', None
+    while procs and time.time() - t0 < timeout_s:
+        for name, p in list(procs):
+            if p.poll() is not None:
+                out = p.stdout.read()
+                procs.remove((name, p))
+                first = out.strip().split("\n")[0].strip() if out.strip() else ''
+                if '(error' in out and first not in ('sat', 'unsat'):
+                    continue
+                if first == 'unsat':
+                    verdict = 'unsat'
+                    procs_kill(procs)
+                    procs = []
+                    break
+                if first == 'sat':
+                    hexes = re.findall(r"#x([0-9a-fA-F]{16})", out)
+                    bins = re.findall(r"#b([01]{64})", out)
+                    raw = [int(h, 16) for h in hexes] or [int(b, 2) for b in bins]
+                    if len(raw) >= len(xs):
+                        vals = [struct.unpack('>d', r.to_bytes(8, 'big'))[0] for r in raw[:len(xs)]]
+                        verdict = 'sat'
+                        procs_kill(procs)
+                        procs = []
+                        break
+        time.sleep(0.2)
+    procs_kill(procs)
+    try:
+        import shutil
+        shutil.rmtree(d)
+    except OSError:
+        pass
+    return verdict, vals
+
+
+def procs_kill(procs):
+    for _, p in procs:
+        try:
+            p.kill()
+            p.wait()
+        except OSError:
+            pass
 
 
 def _fp_to_float(v):
